@@ -73,6 +73,10 @@ package nbhttp
 //@   safety index slice nil div assert panic make
 //@   note encodes the head into a new pooled buffer unless already done
 //@   requires ResOwn(res) && res.request != nil
+//@   note one Content-Length, one Content-Type (C09): the default lines are added only when the handler set none, and no length at all for a chunked response
+//@   at before:AppendString#3 assert onect: arg_more == "Content-Type: text/plain; charset=utf-8\r\n" && len(res.header["Content-Type"]) == 0   // prop C09
+//@   at before:AppendString#4 assert onecl: arg_more == "Content-Length: " && !res.chunked && len(res.header["Content-Length"]) == 0   // prop C09
+//@   at before:AppendString#5 assert onecl: arg_more == "Content-Length: " && !res.chunked && len(res.header["Content-Length"]) == 0   // prop C09
 //@   ensures !old(res.headEncoded) ==> res.buffer != nil && fresh(res.buffer) && liveP[res.buffer]
 //@   ensures old(res.headEncoded) ==> res.buffer == old(res.buffer)
 //@   ensures res.headEncoded && res.bodyBuffer == old(res.bodyBuffer) && (forall q int :: q <= old(top) ==> liveP[q] == old(liveP[q]) && box(q, "[]byte") == old(box(q, "[]byte")) && bytes_row(q) == old(bytes_row(q)))
@@ -420,7 +424,9 @@ package nbhttp
 //@   ensures forall q int :: q <= old(top) ==> liveP[q] == old(liveP[q])
 //@   assigns everything
 //@ iface nbhttp.ParserCloser.CloseAndClean
-//@   note HTTP parser (contract above) or the upgraded protocol's
+//@   params err
+//@   note HTTP parser (contract above) or the upgraded protocol's; counted for the close routing below
+//@   ensures gCleanCalls == old(gCleanCalls) + 1
 //@   assigns everything
 //@ package net
 //@ iface net.Conn.Read
@@ -497,6 +503,8 @@ package nbhttp
 // =====================================================================================================================
 // gExec: closures handed to the connection's executor by the code under contract; gServed: handler invocations
 //@ ghost gExec : Int
+//@ ghost gCleanCalls : Int
+//@ ghost gCleanSnap : Int
 // pooledObj[o]: the request / response object o has been given back to its object pool and not been taken out again (C10: an object is given back once; two exchanges never share one)
 //@ ghost pooledObj : (Array Int Bool)
 //@ ghost gServed : Int
@@ -718,3 +726,22 @@ package nbhttp
 //@   ensures queued: old(p.response.StatusCode) != 101 ==> gCliInv == old(gCliInv) && gExec == old(gExec) + 1   // prop C10
 //@   assigns p.response, gCliInv, gExec, allocates
 //@   at before:handler#1 assert answer: arg_res == old(p.response) && arg_err == nil   // prop C10
+
+// ---- close routing (C05, C14): the engine's close notification for a connection does nothing on the notifying goroutine
+// except submit one job through MustExecute (never refused, runs after everything queued before it); that job calls the
+// session's CloseAndClean once with the close error
+//@ func NewEngine$6
+//@   props C05 C14
+//@   safety nil
+//@   requires thread: c != nil && c.p != nil && c.p.g != nil && !holds(c.mux) && !c.gDToken && !c.gTok
+//@   ensures routed: gCleanCalls == gCleanSnap   // prop C05 C14
+//@   assigns everything
+//@   at before:MustExecute#1 assert nothingbefore: gCleanCalls == old(gCleanCalls)   // prop C05 C14
+//@   at call:MustExecute#1 ghost { gCleanSnap = gCleanCalls }
+//@ func NewEngine$6$1
+//@   props C05 C14
+//@   safety nil
+//@   requires thread: c != nil && engine != nil
+//@   assigns everything
+//@   at before:CloseAndClean#1 assert first: gCleanCalls == old(gCleanCalls)   // prop C05 C14
+//@   at before:CloseAndClean#1 assert cause: arg_err == err   // prop C03 C14
